@@ -30,6 +30,23 @@
     update_config.rs  `owner != sender → Unauthorized` (the borrower is not the factory)
     callback/mod.rs   `sender != vault → ExternalCallback`
 
+  MIGRATION (`Op.migrate`): the `migrate` entry point of pair / 3pool / vault (contract.rs of each) is a
+  chain-level call made by the contract's wasm admin — every pool and vault is instantiated by its factory
+  with `admin: Some(factory)`, and the factories' owner-only `MigratePair` / `MigrateTrio` / `MigrateVaults`
+  send `WasmMsg::Migrate`.  All three handlers have the same shape (transcribed):
+
+    check_contract_name;  stored cw2 version `>=` crate version → `MigrateInvalidVersion`;
+    version-specific storage migrations (migrations.rs: pair `migrate_to_v110 / v120 / v130`, vault
+    `migrate_to_v120`; the 3pool has none) — they rebuild `pair_info` / `Config` from the older layout and
+    carry `feature_toggle` / the three `*_enabled` fields over field by field;
+    `set_contract_version`.
+
+  Whether the storage migration succeeds on the state at hand is not modelled (parameter `body`, taken from
+  the never-paused twin world like `base`); what IS the model's statement: a migration — refused or accepted,
+  from whichever version — writes no switch and nothing else of the modelled state.  (The vault's `migrate`
+  also saves `LOAN_COUNTER = 0` first; a migration is a transaction of its own, between transactions the
+  counter is 0 — `C17.reachable_loans` — so this is the identity on every reachable state.)
+
   `Op.inLoan` is a whole flash-loan transaction whose borrower sends one further vault message (`inner`)
   from inside its callback, either as a plain message (its error fails the whole transaction and
   everything is rolled back) or as a sub-message whose result the borrower records in `reply` (a failed
@@ -241,6 +258,19 @@ def stepInLoan (s : St) (outer inner : Path) (m : Mode) (lb : LoanBase) : LoanRe
   | .err => ⟨.err, none⟩
   | .panic => ⟨.panic, none⟩
 
+/-- a contract version `major.minor.patch` as cw2 stores it (plain triples, compared like `semver::Version`
+    compares versions without pre-release tags) -/
+structure Ver where
+  major : Nat
+  minor : Nat
+  patch : Nat
+deriving DecidableEq, Repr
+
+/-- `a < b` in semver order -/
+def Ver.lt (a b : Ver) : Bool :=
+  a.major < b.major ||
+    (a.major == b.major && (a.minor < b.minor || (a.minor == b.minor && a.patch < b.patch)))
+
 inductive Op where
   /-- `UpdateConfig { feature_toggle: Some f }` by `owner` (= the factory) or by somebody else -/
   | setFlags (byOwner : Bool) (f : Flags)
@@ -253,9 +283,21 @@ inductive Op where
   | call (p : Path)
   /-- a flash loan through `outer` with the message `inner` sent from inside the borrower's callback -/
   | inLoan (outer inner : Path) (m : Mode) (lb : LoanBase)
+  /-- the `migrate` entry point, called by the wasm admin (`byAdmin`; the chain refuses anybody else, the
+      factories refuse anybody but their owner) on a contract whose stored cw2 version is `stored`, with
+      the code of crate version `crate`; `body` = the outcome of the version-specific storage migration
+      (un-modelled, from the twin world) -/
+  | migrate (byAdmin : Bool) (stored crate : Ver) (body : Res Unit)
 deriving DecidableEq, Repr
 
-/-- The switch state after an operation; a call never writes the switches. -/
+/-- the outcome of a migration: only the admin, only from a LOWER stored version, then the storage
+    migration decides -/
+def migrateRes (byAdmin : Bool) (stored crate : Ver) (body : Res Unit) : Res Unit :=
+  if byAdmin = false then .err
+  else if stored.lt crate = false then .err
+  else body
+
+/-- The switch state after an operation; a call never writes the switches, and neither does a migration. -/
 def step (base : Path → Res Unit) (s : St) : Op → Res St
   | .setFlags byOwner f => if byOwner then .ok { s with flags := f } else .err
   | .setPartial byOwner a b c =>
@@ -272,6 +314,12 @@ def step (base : Path → Res Unit) (s : St) : Op → Res St
     -- committed: `AfterTrade` has brought the counter back; the switches are not written (the only
     -- writer, `update_config`, refuses the borrower)
     match (stepInLoan s outer inner m lb).tx with
+    | .ok () => .ok s
+    | .err => .err
+    | .panic => .panic
+  | .migrate byAdmin stored crate body =>
+    -- accepted or refused, from whichever version: no switch is written
+    match migrateRes byAdmin stored crate body with
     | .ok () => .ok s
     | .err => .err
     | .panic => .panic
